@@ -8,7 +8,7 @@
 (* must return the tree (design level).                                     *)
 EXTENDS XjsPrograms, Json
 
-CONSTANTS Sizes, BigSizes, ModelUpTo, Export
+CONSTANTS Sizes, BigSizes, DeepSizes, ModelUpTo, Export
 
 VARIABLES fam, n
 vars == <<fam, n>>
@@ -20,10 +20,13 @@ Families == {"rep_call0", "rep_call1", "rep_arr0", "rep_marked", "nest_blk", "ne
 \* families whose instances are cheap: they also take the sizes in BigSizes
 BigFams == {"rep_call0", "rep_call1", "rep_marked", "bad_let", "bad_call", "long_str", "chain_plus", "many_names"}
 
+\* nestings that also take the sizes in DeepSizes (beyond limits of about a thousand open constructs)
+DeepFams == {"nest_blk", "nest_fn", "nest_paren", "nest_arr"}
+
 \* one initial state; every (family, n) is a successor, so that TLC's workers share the work
 Init == fam = "none" /\ n = 0
 Next == \/ fam = "none" /\ fam' \in Families /\ n' = 0
-        \/ fam # "none" /\ n = 0 /\ n' \in (Sizes \cup (IF fam \in BigFams THEN BigSizes ELSE {})) /\ UNCHANGED fam
+        \/ fam # "none" /\ n = 0 /\ n' \in (Sizes \cup (IF fam \in BigFams THEN BigSizes ELSE {}) \cup (IF fam \in DeepFams THEN DeepSizes ELSE {})) /\ UNCHANGED fam
 Spec == Init /\ [][Next]_vars
 
 Call(f, args) == Node("call", "", <<f>> \o args)
